@@ -164,7 +164,7 @@ def run_one(case, plan, seed_extra):
                 svc = fakes.FakeB2(bucket_name='bkt', bucket_id='bid', key_id='kid', application_key='akey', restricted=case['size'] % 2 == 0,
                                    page_size=case['page'], faults=[fakes.Fault.from_dict(f) for f in plan], request_budget=250)
                 for n, v in list(others.items()) + ([(NAME, old)] if old is not None else []):
-                    svc.versions[n] = [('upload', v)]
+                    svc.versions[n] = [('upload', v, 'seed-' + n)]
                 backend = fakes.make_b2(svc)
             out['svc'] = svc
             t0 = CTX.s.now
@@ -420,9 +420,9 @@ def run_concurrent(case):
             name = f'data/{i:02d}/obj-{i}'
             data = prng.randbytes(c['size'])
             if c['op'] in ('download', 'exists'):
-                svc.versions[name] = [('upload', data)]
+                svc.versions[name] = [('upload', data, 'seed-' + name)]
             plans.append((c, name, data))
-        svc.versions['data/zz/keep'] = [('upload', b'keep')]
+        svc.versions['data/zz/keep'] = [('upload', b'keep', 'seed-keep')]
 
         async def one(c, name, data):
             sub = dict(case, op=c['op'], chunk=c['chunk'], rate_limited=False)
